@@ -103,6 +103,23 @@ def gen_cases(rng, tier):
     return cases
 
 
+def dedup_releases(l):
+    """a key that two states hold is released once per state; a second release of a key that is already up in the same millisecond
+    tells the OS nothing: `@t u42 u42` and `@t u42` are the same behaviour"""
+    if not l.startswith('@'):
+        return l
+    seen, out = set(), []
+    for tok in l.split(' '):
+        if re.fullmatch(r'u\d+', tok):
+            if tok in seen:
+                continue
+            seen.add(tok)
+        elif re.fullmatch(r'd\d+', tok):
+            seen.discard('u' + tok[1:])
+        out.append(tok)
+    return ' '.join(out)
+
+
 def shift(trace, cut, K):
     """trace lines at ticks > cut shifted back by K; Q/R lines likewise"""
     out = []
@@ -165,8 +182,8 @@ def post(all_results, run_impl, rng, tier, stats):
         # the number of layout states is bookkeeping (a finished state is swept by the next tick that runs): not compared
         # the saved macros' recorded delays (DM lines) count ticks, not time: with the constant replay delay they are not
         # observable and differ between a run that skips blocked ticks and one that does not; INFO lines carry tick numbers
-        a = [re.sub(r' nstates=\d+', '', l) for l in it if not l.startswith(('DM@', 'INFO '))]
-        b = [re.sub(r' nstates=\d+', '', l) for l in other[1] if not l.startswith(('DM@', 'INFO '))]
+        a = [dedup_releases(re.sub(r' nstates=\d+', '', l)) for l in it if not l.startswith(('DM@', 'INFO '))]
+        b = [dedup_releases(re.sub(r' nstates=\d+', '', l)) for l in other[1] if not l.startswith(('DM@', 'INFO '))]
         if a != b:
             k = 0
             while k < min(len(a), len(b)) and a[k] == b[k]:
@@ -182,8 +199,8 @@ def post(all_results, run_impl, rng, tier, stats):
         it2 = res.get(v['id'])
         if not it2:
             continue
-        a = [l for l in it if not l.startswith(('Q@', 'DM@', 'INFO '))]
-        b = [l for l in shift(it2, cut, K) if not l.startswith(('Q@', 'DM@', 'INFO '))]
+        a = [dedup_releases(l) for l in it if not l.startswith(('Q@', 'DM@', 'INFO '))]
+        b = [dedup_releases(l) for l in shift(it2, cut, K) if not l.startswith(('Q@', 'DM@', 'INFO '))]
         if a != b:
             k = 0
             while k < min(len(a), len(b)) and a[k] == b[k]:
